@@ -114,6 +114,24 @@ func vfStartTransfer(sess *vfSession, cfg vfPairCfg, paths []string, dest string
 			}
 		})
 	}
+	// in binary mode "#DATA:<n>" introduces n raw bytes: tell the taps of the sending direction
+	if cfg.Binary && !windowsEnvironment {
+		for _, l := range []*vfLink{sess.c2s, sess.tunC2S} {
+			if l != nil {
+				l.binary = cfg.Upload
+			}
+		}
+		for _, l := range []*vfLink{sess.s2c, sess.tunS2C} {
+			if l != nil {
+				l.binary = !cfg.Upload
+			}
+		}
+	}
+	if sess.opts.Tunnel && sess.tunC2S != nil {
+		// over a tunnel every transfer is binary
+		sess.tunC2S.binary = cfg.Upload
+		sess.tunS2C.binary = !cfg.Upload
+	}
 	flags := vfServerFlags(cfg)
 	if cfg.Upload {
 		ch, err := sess.filter.OneTimeUpload(paths)
